@@ -168,6 +168,12 @@ OnFact(S, r) ==
          ELSE IF r.d.created = last THEN Bad(S, "C19", "the discoverer emitted two created or two destroyed events in a row for one object")
          ELSE [S EXCEPT !.dlast = Put(@, key, r.d.created)]
     [] r.what = "dview" -> ViewCheck(S, r)
+    \* C12: a well-formed payload sent between peers of any two supported versions arrives meaning the same
+    \* value (echo roles: containers of every shape, small and large keys, nested; both directions)
+    [] r.what = "echo" ->
+         IF ~r.d.ok /\ S.cause = "" /\ S.faulty = {}
+           THEN Bad(S, "C12", "a well-formed payload did not cross the version boundary unchanged: " \o r.d.why)
+           ELSE S
     [] OTHER -> S
 
 CStep(S0, r) ==
